@@ -336,6 +336,14 @@ def run(definition, input, tasks, context=None, inband=False, exec_timeout=None,
     o.end_time = it.clock
     return o
 
+def _strip_cause(x):
+    """Attempts are counted per payload without the free text of error causes (same rule as harness.world.Worker)."""
+    if isinstance(x, dict):
+        return {k: _strip_cause(v) for k, v in x.items() if k != "Cause"}
+    if isinstance(x, list):
+        return [_strip_cause(v) for v in x]
+    return x
+
 class ScriptedTasks(object):
     """Same outcome rule as harness.world.Worker: key = JSON text of the payload, '*' default, attempts counted per key."""
     def __init__(self, workers):
@@ -352,9 +360,7 @@ class ScriptedTasks(object):
         lst = spec.get(key)
         if lst is None:
             lst = spec.get("*", [["echo"]])
-            akey = (fname, key)
-        else:
-            akey = (fname, key)
+        akey = (fname, json.dumps(_strip_cause(payload), sort_keys=True))
         n = self.attempts.get(akey, 0)
         self.attempts[akey] = n + 1
         out = lst[min(n, len(lst) - 1)]
